@@ -4,6 +4,7 @@ import (
 	"bytes"
 	"encoding/json"
 	"fmt"
+	"io"
 	"log"
 	"strings"
 
@@ -22,7 +23,7 @@ func init() {
 		if err := json.Unmarshal(raw, &cs); err != nil {
 			return []string{"bad replay file"}
 		}
-		return c18Run(cs.Calls)
+		return c18RunW(cs.Calls, cs.Writers)
 	}
 }
 
@@ -37,6 +38,58 @@ type c18Call struct {
 
 type c18Case struct {
 	Calls []c18Call `json:"calls"`
+	// Writers: kind of the console writer installed first and of the one SetStdout installs later:
+	// 0 *bytes.Buffer (offers WriteByte, WriteString, ...); 1 a writer with nothing but Write;
+	// 2 as 1, and inside Write - before it looks at the bytes - a second, independent tinycpm machine prints
+	// another byte to its own console (two machines in one process, interleaved at the only point where
+	// control leaves the package)
+	Writers [2]int `json:"writers,omitempty"`
+}
+
+// c18Writer is a console writer of one of the kinds above.
+type c18Writer interface {
+	io.Writer
+	Bytes() []byte
+}
+
+type c18Plain struct{ b []byte }
+
+func (w *c18Plain) Write(p []byte) (int, error) { w.b = append(w.b, p...); return len(p), nil }
+func (w *c18Plain) Bytes() []byte               { return w.b }
+
+type c18Nest struct {
+	b      []byte
+	other  *tinycpm.IO
+	otherB bytes.Buffer
+	bad    string
+}
+
+func (w *c18Nest) Write(p []byte) (int, error) {
+	// the second machine prints first
+	for i := range p {
+		x := uint8(len(w.b)+i)*31 + 7
+		before := w.otherB.Len()
+		w.other.Out(0, x)
+		if o := w.otherB.Bytes(); len(o) != before+1 || o[before] != x {
+			w.bad = fmt.Sprintf("the second machine printed %02X and its console received % X", x, o[before:])
+		}
+	}
+	w.b = append(w.b, p...)
+	return len(p), nil
+}
+func (w *c18Nest) Bytes() []byte { return w.b }
+
+func newC18Writer(kind int) c18Writer {
+	switch kind {
+	case 1:
+		return &c18Plain{}
+	case 2:
+		_, other := tinycpm.New()
+		w := &c18Nest{other: other}
+		other.SetStdout(&w.otherB)
+		return w
+	}
+	return &bytes.Buffer{}
 }
 
 func (c c18Call) String() string {
@@ -59,10 +112,13 @@ func (c c18Call) String() string {
 }
 
 // c18Run executes one call sequence and returns a diff or nil, plus Steps are not counted (Run).
-func c18Run(calls []c18Call) []string {
+func c18Run(calls []c18Call) []string { return c18RunW(calls, [2]int{0, 0}) }
+
+func c18RunW(calls []c18Call, wk [2]int) []string {
 	mem, io := tinycpm.New()
-	var out, warn bytes.Buffer
-	io.SetStdout(&out)
+	var warn bytes.Buffer
+	out, out2 := newC18Writer(wk[0]), newC18Writer(wk[1])
+	io.SetStdout(out)
 	io.SetWarnLogger(log.New(&warn, "", 0))
 	// build the program
 	pc := uint16(tinycpm.Start)
@@ -78,7 +134,6 @@ func c18Run(calls []c18Call) []string {
 	ends := false
 	switchAt := map[int]bool{}
 	wantSplit := -1
-	var out2 bytes.Buffer
 	for _, cl := range calls {
 		switch cl.Kind {
 		case "fn2":
@@ -142,7 +197,7 @@ func c18Run(calls []c18Call) []string {
 				if len(o) > 32 {
 					o = o[:32]
 				}
-				return []string{fmt.Sprintf("the run did not come back (deterministic watchdog after %d memory accesses; PC=%04X, %d bytes printed so far: % X...)", wp.n, cpu.PC, out.Len(), o)}
+				return []string{fmt.Sprintf("the run did not come back (deterministic watchdog after %d memory accesses; PC=%04X, %d bytes printed so far: % X...)", wp.n, cpu.PC, len(out.Bytes()), o)}
 			}
 			return []string{fmt.Sprintf("panic: %v", p)}
 		}
@@ -152,7 +207,7 @@ func c18Run(calls []c18Call) []string {
 			}
 			hit++
 			if switchAt[hit-1] {
-				io.SetStdout(&out2)
+				io.SetStdout(out2)
 			}
 			if cpu.SP != sp0 {
 				d = append(d, fmt.Sprintf("after call #%d (%v): SP=%04X, want %04X", hit, calls[hit-1], cpu.SP, sp0))
@@ -194,7 +249,12 @@ func c18Run(calls []c18Call) []string {
 		if len(w) > 24 {
 			w = w[:24]
 		}
-		d = append(d, fmt.Sprintf("console output: want %d bytes [% X...] got %d bytes [% X...]", len(want), w, out.Len(), g))
+		d = append(d, fmt.Sprintf("console output: want %d bytes [% X...] got %d bytes [% X...]", len(want), w, len(out.Bytes()), g))
+	}
+	for _, o := range []c18Writer{out, out2} {
+		if nw, ok := o.(*c18Nest); ok && nw.bad != "" {
+			d = append(d, "two machines in one process: "+nw.bad)
+		}
 	}
 	if nw := strings.Count(warn.String(), "\n"); nw != wantWarn {
 		d = append(d, fmt.Sprintf("warnings: want %d got %d (%q)", wantWarn, nw, warn.String()))
@@ -211,8 +271,9 @@ func c18Run(calls []c18Call) []string {
 
 func checkC18(c *Ctx) {
 	var n, nt int64
+	wk := [2]int{0, 0}
 	run := func(key string, calls []c18Call) bool {
-		d := c18Run(calls)
+		d := c18RunW(calls, wk)
 		n++
 		if len(calls) > 0 {
 			nt++
@@ -222,7 +283,7 @@ func checkC18(c *Ctx) {
 			for _, cl := range calls {
 				names = append(names, cl.String())
 			}
-			c.Report("c18/cpm:"+key, n, "", c18Case{calls}, append([]string{fmt.Sprintf("call sequence %v; JP 0", names)}, d...))
+			c.Report("c18/cpm:"+key, n, "", c18Case{calls, wk}, append([]string{fmt.Sprintf("call sequence %v; JP 0; console writer kinds %v (0 bytes.Buffer, 1 Write only, 2 Write only with a second machine printing inside Write)", names, wk)}, d...))
 			return false
 		}
 		return true
@@ -316,15 +377,35 @@ func checkC18(c *Ctx) {
 		}
 	}
 	seq(nil)
-	// the host replaces the console writer between two calls (and before the first one)
-	for _, a := range calls[:6] {
-		for _, b := range calls[:6] {
-			if !ok {
-				break
+	// the host replaces the console writer between two calls (and before the first one), every pair of writer kinds
+	for k1 := 0; k1 < 3; k1++ {
+		for k2 := 0; k2 < 3; k2++ {
+			wk = [2]int{k1, k2}
+			for _, a := range calls[:6] {
+				for _, b := range calls[:6] {
+					if !ok {
+						break
+					}
+					ok = run("setstdout", []c18Call{a, {Kind: "setstdout"}, b}) && run("setstdout", []c18Call{{Kind: "setstdout"}, a, b})
+				}
 			}
-			ok = run("setstdout", []c18Call{a, {Kind: "setstdout"}, b}) && run("setstdout", []c18Call{{Kind: "setstdout"}, a, b})
 		}
 	}
+	// every writer kind alone: all 256 byte values and the call pairs
+	for k1 := 1; k1 < 3 && ok; k1++ {
+		wk = [2]int{k1, 0}
+		for e := 0; e < 256 && ok; e++ {
+			ok = run("fn2", []c18Call{{Kind: "fn2", E: uint8(e)}})
+		}
+		for _, a := range calls {
+			for _, b := range calls {
+				if ok && a.Kind != "unsupported" {
+					ok = run("sequence", []c18Call{a, b})
+				}
+			}
+		}
+	}
+	wk = [2]int{0, 0}
 	// the empty program: JP 0 only
 	run("exit", nil)
 	c.Evaluations = n
@@ -333,9 +414,9 @@ func checkC18(c *Ctx) {
 	c.Transitions = n
 	c.Traces = n
 	c.Exhaustive = true
-	c.Rule = fmt.Sprintf("real tinycpm machine + real CPU.Run, a breakpoint after every call: function 2 with all 256 E values; function 9 with every string over the alphabet {00,23,25,7F,80,FF,'A'} of length 0..3 (%d strings) at addresses {0200,7FFF,FD00} and ending right below the BDOS entry (terminator at FE05), every single non-'$' byte value, lengths {0,1,255,256,257,4095,4096} across page boundaries; all call sequences of length <=%d over a 15-letter alphabet {fn2(x), fn2('$'), fn2(0), 3 fn9 strings, unsupported fn 0/1/10/255, OUT (0)/(1)/(255), IN (0)/(7)}; the host replacing the console writer (SetStdout) between two calls; exit via JP 0. Oracle: console writer receives exactly the specified bytes in order; after every call PC is the instruction after the CALL, SP and the caller's code bytes are unchanged; final halt at FF03; exactly one warning per port!=0 write and per port read; nothing else in memory changed. Non-trivial: every case with at least one call (counted).", len(strs), depth)
+	c.Rule = fmt.Sprintf("real tinycpm machine + real CPU.Run, a breakpoint after every call: function 2 with all 256 E values; function 9 with every string over the alphabet {00,23,25,7F,80,FF,'A'} of length 0..3 (%d strings) at addresses {0200,7FFF,FD00} and ending right below the BDOS entry (terminator at FE05), every single non-'$' byte value, lengths {0,1,255,256,257,4095,4096} across page boundaries; all call sequences of length <=%d over a 15-letter alphabet {fn2(x), fn2('$'), fn2(0), 3 fn9 strings, unsupported fn 0/1/10/255, OUT (0)/(1)/(255), IN (0)/(7)}; the host replacing the console writer (SetStdout) between two calls, for every pair of writer kinds {bytes.Buffer, a writer with only Write, such a writer inside whose Write a second independent tinycpm machine prints to its own console}; every writer kind alone with all 256 byte values and all call pairs; exit via JP 0. Oracle: console writer receives exactly the specified bytes in order; after every call PC is the instruction after the CALL, SP and the caller's code bytes are unchanged; final halt at FF03; exactly one warning per port!=0 write and per port read; nothing else in memory changed. Non-trivial: every case with at least one call (counted).", len(strs), depth)
 	c.Bound = fmt.Sprintf("call sequences <=%d", depth)
-	c.Sample(c18Case{[]c18Call{{Kind: "fn9", Str: []uint8{0xFF, 0x00, 'z'}, Addr: 0x03FE}, {Kind: "out", Port: 1}, {Kind: "fn2", E: '$'}}})
+	c.Sample(c18Case{Calls: []c18Call{{Kind: "fn9", Str: []uint8{0xFF, 0x00, 'z'}, Addr: 0x03FE}, {Kind: "out", Port: 1}, {Kind: "fn2", E: '$'}}})
 	c.Assume("strings lie outside page 0, the BIOS pages and the stack (statement: 'arbitrary addresses outside the BIOS pages')")
 	c.Assume("an unsupported function number ends the sequence (the BIOS halts); only 'no output, no panic' is required of it")
 }
